@@ -78,7 +78,8 @@ def run(run):
         for k, p in enumerate(paths):
             npaths += 1
             if p.panic is not None:
-                feas_obligation(run, f"{tag}/p{k}/panic-infeasible", ctx, p, {"panic": p.panic})
+                feas_obligation(run, f"{tag}/p{k}/panic-infeasible", ctx, p, {"panic": p.panic},
+                                replay=panic_replay(run, args, p))
                 continue
             # reachability: the path is a real behaviour (its condition is satisfiable) unless it is
             # one of the huge curve-arithmetic conditions
@@ -215,6 +216,18 @@ def shape_replay(run, args, ctx, p):
         return ok, {"env": env, "driver": ["component"] + args,
                     "gates_at_model": None if s1 is None else len(s1[0]),
                     "gates_at_other_values": None if s0 is None else len(s0[0])}
+    return rp
+
+
+def panic_replay(run, args, p):
+    """model of a feasible panic path: run the real composer component at the model's values;
+    reproduced iff the real component panics"""
+    def rp(model):
+        from checks.common import real_at
+        names = sorted({v for a, b, _, _ in p.conds for v in smt.variables([a, b])})
+        env = {n: "%064x" % (model.get(smt.vname(n), 0) % R) for n in names}
+        r1 = real_at(["component"] + args, env, run.seed)["outputs"]["paths"][0]
+        return bool(r1.get("panic")), {"env": env, "driver": ["component"] + args, "real_panic": r1.get("panic")}
     return rp
 
 
